@@ -28,6 +28,9 @@ C = {
  "C09": ("proof", B2, "Lean 4 theorems (Props/C09.lean): exactly once after the cache update, filter, order, unregistered/closed, and C09_mutation_safe for arbitrary re-entrant callback scripts under snapshot delivery (L3 model). Tie: (a) real subunit objects with scripted re-entrant update callbacks vs the compiled model; (b) the real connection and reader thread under the deterministic scheduler with re-entrant message callbacks and a concurrently (un)registering thread, judged by a must/may monitor.",
          "Modelled rather than verified: subunit/connection delivery loops. Delivery order among callbacks is unspecified; user callbacks do not raise. DetSched shims (threading/queue/time) and the virtual port are trusted harness code.",
          "Lean 4 proof (induction over the delivery snapshot) + differential correspondence + scheduled real threads with monitor"),
+ "C12": ("proof", B2, "Lean 4 theorem C12_gap over the L4 timed model with urgency: while the connection is up and healthy, now <= lastTx + spacing + kaInterval in every reachable state (C12_gap_30s under the explicit hypothesis kaInterval + spacing <= 30.1 s); C12_two_probes: the first two transmissions are probes (as long as no connection loss has drained them — counterexample otherwise found by the proof attempt). Tie: scheduled real executions over sessions many keep-alive intervals long; acceptor + gap monitor.",
+         "Modelled rather than verified: sender loop timing. Virtual time idealises computation as instantaneous: OS scheduling latency between a timer expiring and the thread running is outside the model.",
+         "Lean 4 proof (timed invariant with urgency) + trace inclusion of scheduled real executions"),
  "C13": ("proof", B2, "Lean 4 theorems over the L4 model at attribute granularity (flag read r1 and clear r2 are separate steps interleaving freely with the sender's s1): the flag is set exactly when a probe was flagged since it was last cleared; a line is withheld iff it is a SYS:MODELNAME line and that holds (only-if, delivered-otherwise, converse). Tie: scheduled real executions with line-level preemption inside handle_line/_send_handler, user MODELNAME queries racing probes, latencies on both sides of the spacing; acceptor + must/may monitor.",
          "Modelled rather than verified: handle_line / _send_handler flag accesses. The monitor brackets the unobservable flag accesses with shim-level observations (queue get, clock).",
          "Lean 4 proof (exact flag invariant) + trace inclusion of scheduled real executions"),
@@ -40,6 +43,12 @@ C = {
  "C10": ("proof", B1, "Lean 4 theorems (Props/C10.lean): an undecodable value leaves cache, callbacks, sent and liveness unchanged; after any history every cached value has the type of its function; decode is type-correct for every converter. Totality of framing/parsing/handling is by construction of the (total) models. Tie: typed attack on every readable function of every class and byte-level attack (invalid UTF-8, 1 MB lines, malformed YNCA) through the real data_received -> connection callbacks -> subunits, sentinel line after every attack.",
          "Modelled rather than verified: as C02/C03. Reader-thread survival is exercised through the real receive path; the thread itself is covered by the L4 checks. bytes.decode('replace') total (CPython).",
          "Lean 4 proof (invariant by induction on history, mutual induction on converters) + differential correspondence"),
+ "C18": ("proof", B1, "Lean 4 theorems over the L6 model of ynca/server.py: ingestion (a value line sets exactly its key; errors never overwrite values), ordinary GET/PUT refine an abstract map (GET = stored value or one error line; PUT new = stored + reported once; PUT same = silent; PUT unknown = one error line), every reply is well formed, GETs answer only with stored members. Tie: real fill_from_file on the 12 recordings vs the model (store dumps equal incl. insertion order); random GET/PUT sequences through the real handle() loop vs the compiled model; independent last-value/abstract-map oracle.",
+         "Modelled rather than verified: ynca/server.py ingestion, store, handlers (not socketserver plumbing, main, argument parsing). Python float arithmetic of relative steps is a parameter of the theorems and modelled in the driver for plain one-decimal values only.",
+         "Lean 4 proof (refinement to an abstract map) + differential correspondence"),
+ "C19": ("proof", B1, "Lean 4 theorems over the L6 model (all handlers total; the one remaining raise site of the source is an explicit crash marker): no command crashes the handler on a store without zone PLAYBACK keys, handlers never add/remove keys so this holds for whole sessions, the regenerated fact that no bundled recording has such a key; relative steps consult the volume arithmetic only for VOL/ZONEBVOL and only for values starting with Up/Down. Tie: every command the typed API emits (produced by the real objects) and random/adversarial lines against handlers loaded from the 12 recordings and the built-in store vs the compiled model; crash/well-formedness/Up-Down-symmetry monitor.",
+         "Modelled rather than verified: as C18. Lines are valid UTF-8 text (undecodable bytes outside the claim). A latent IndexError (PLAYBACK on a zone whose input has no playback subunit) is unreachable from the bundled recordings and modelled explicitly.",
+         "Lean 4 proof (totality with explicit exception + invariant) + differential correspondence"),
  "C20": ("proof", B2, "Lean 4 theorems: a ring of capacity n holds the last min(n,k) items after any k adds (bounded; empty for n = 0); in every reachable state of the L4 model the Send entries of the log are exactly the written lines plus at most one pending entry, the Received entries exactly the complete received lines, and every write was logged before. Tie: scheduled real executions with log snapshots by a concurrent caller for N in {0,1,2,5,100}; the acceptor compares every snapshot with the model's ring; independent monitor against the port's own record incl. reply-after-command.",
          "Modelled rather than verified: RingBuffer (deque(maxlen)), log appends in handle_line/_send_handler. Causal order reply-after-command is checked by the monitor only. Time-stamp prefixes are ignored.",
          "Lean 4 proof (list lemma + invariants) + trace inclusion of scheduled real executions"),
